@@ -70,6 +70,21 @@ def expected_read(rows, nparticle, nmax, weights):
     return arr
 
 
+_CCACHE = {}
+
+
+def cached_config(rec):
+    """Config(rec), remembered for the (expensive) large systems: built once for the margin
+    test of the generator and once more when the operation executes."""
+    if not rec.get("huge"):
+        return Config(rec)
+    key = repr(sorted(rec.items()))
+    if key not in _CCACHE:
+        _CCACHE.clear()
+        _CCACHE[key] = Config(rec)
+    return _CCACHE[key]
+
+
 class World(WorldBase):
     prop = "C05"
 
@@ -88,9 +103,12 @@ class World(WorldBase):
             "p_env": rng.choice([0.0, 0.1, 0.3]),
             "p_thread": rng.choice([0.0, 0.0, 0.2]),
             "p_nest": rng.choice([0.0, 0.1, 0.3]),
+            "huge": rng.random() < float(os.environ.get("VERIF_C05_HUGE", "0.002" if os.environ.get("VERIF_TIER", "quick") == "quick" else "0.006")),   # one frame with > 4096 particles
             "faults": [],
             "hold_max": 0,
         }
+        if sw["huge"]:
+            sw["nops"] = min(sw["nops"], 8)
         if batch == "fault":
             kinds = ["interrupt", "oserror_write", "short_write", "short_read", "oserror_read", "interrupt_line", "alloc_line"]
             sw["faults"] = rng.sample(kinds, rng.randint(1, 4))
@@ -227,6 +245,17 @@ class World(WorldBase):
 
     def gen_config(self, rng):
         sw = self.swarm
+        if sw.get("huge") and not any(c.huge for c in self.configs.values()):
+            for _try in range(20):
+                ndim = rng.choice([2, 3])
+                rec = {"ndim": ndim, "exact": False, "N": rng.randint(4100, 4700), "T": 1, "K": rng.randint(1, 2),
+                       "cell": rng.choice(["ortho", "tri"]), "layout": rng.choice(["droplet", "droplet", "random"]),
+                       "ppp": [rng.choice([1, 1, 1, 0]) for _ in range(ndim)], "cells": "const", "nvary": False, "tvary": False,
+                       "grow": False, "vanish": False, "huge": True, "subseed": rng.randrange(1 << 40)}
+                if cached_config(rec).margins_ok():
+                    self.ctx.probe("config_huge")
+                    return {"op": "mk_config", "name": f"c{self.next_c}", "recipe": rec}
+                self.ctx.probe("regen_margin")
         for _try in range(200):
             ndim = rng.choice([2, 3])
             exact = rng.random() < sw["p_exact"]
@@ -247,6 +276,7 @@ class World(WorldBase):
                 "grow": rng.random() < 0.15,
                 "vanish": rng.random() < 0.4,
                 "int_cell": exact and rng.random() < 0.35,
+                "halftilt": exact and rng.random() < 0.25,
                 "subseed": rng.randrange(1 << 40),
             }
             if not exact and rng.random() < 0.15:
@@ -267,6 +297,10 @@ class World(WorldBase):
         cfg = self.configs[cname]
         kinds = list(sw["producers"])
         kind = rng.choice(kinds)
+        if cfg.huge:
+            # (only the nearest two dozen distances of a particle are separated well enough to judge)
+            return {"op": "produce", "kind": "Nnearests", "cfg": cname, "path": path or rng.choice(sw["paths"]),
+                    "n": rng.choice([3, 12, 12, 16]), "default_ppp": False, "default_path": False}
         op = {"op": "produce", "kind": kind, "cfg": cname, "path": path or rng.choice(sw["paths"])}
         if kind == "Nnearests":
             if cfg.exact or cfg.Nmin < 2:
@@ -285,7 +319,7 @@ class World(WorldBase):
         if kind == "cutoff":
             for _try in range(100):
                 if cfg.exact:
-                    rc = rng.choice(EXACT_RC)
+                    rc = rng.choice(EXACT_RC if not cfg.symmetric_only else (2.5, 4.0, 4.25, 4.5, 5.0))
                 elif rng.random() < 0.06:
                     # so short that no particle has any neighbour in any frame
                     dmin = min(float(np.min(D[0] + np.eye(D[0].shape[0]) * 1e9)) if D[0].shape[0] > 1 else 1.0 for D in cfg.tables)
@@ -403,7 +437,7 @@ class World(WorldBase):
         return getattr(self, "do_" + k)(op)
 
     def do_mk_config(self, op):
-        c = Config(op["recipe"])
+        c = cached_config(op["recipe"])
         if not c.margins_ok():
             raise Refuse("margins")
         name = op["name"]
@@ -506,6 +540,8 @@ class World(WorldBase):
                 if pid in js:
                     raise Violation(f"C05/self-listed:{tag}", f"frame {t} particle {pid}: {js}")
                 want = exp[pid - 1]
+                if cfg.symmetric_only:
+                    continue            # which image is "the" minimum one at an exact half-cell tie is not decided here
                 if cfg.exact:
                     if sorted(js) != sorted(want):
                         raise Violation(f"C05/frame-content:{tag}",
